@@ -83,6 +83,9 @@ def parseCall (ws : List String) : Option Call :=
   | ["align", u, r, a] => do some (.align (← pBool u) (← pBool r) (← pBool a))
   | ["alretain", k, u, r, a] => do some (.alRetain (← parseNat k) (← pBool u) (← pBool r) (← pBool a))
   | ["alfree", k] => do some (.alFree (← parseNat k))
+  | ["albuild", k] => do some (.alBuild (← parseNat k))
+  | ["aladd", k, n, p] => do some (.alAdd (← parseNat k) (← parseNat n) (← parseNat p))
+  | ["alpop", k, e] => do some (.alPop (← parseNat k) (← parseNat e))
   | ["aliter", i, "dec", u, r, a, e] => do some (.alIter (← parseNat i) .dec (← pBool u) (← pBool r) (← pBool a) (← pBool e))
   | ["aliter", i, k, u, r, a, e] => do some (.alIter (← parseNat i) (.user (← parseNat k)) (← pBool u) (← pBool r) (← pBool a) (← pBool e))
   | ["alinext", i, l] => do some (.aliNext (← parseNat i) (← pBool l))
@@ -103,8 +106,14 @@ def b01 (b : Bool) : String := if b then "1" else "0"
 
 def countKind (p : IterKind → Bool) (l : List Iter) : Nat := (l.filter fun it => p it.kind).length
 
+/-- sizes of the three levels of the user-built alignments, by slot -/
+def showBuilt (l : List (Nat × SSVerif.AlignVec.UAlign)) : String :=
+  if l.isEmpty then "-" else
+  let sorted := (l.toArray.qsort (fun a b => a.1 < b.1)).toList
+  sepBy "," (sorted.map fun p => s!"{p.1}:{p.2.word.n}/{p.2.sseq.n}/{p.2.state.n}")
+
 def showInst (s : ApiState) : String :=
-  let its := s!" it={countKind isSeg s.iters},{countKind isHyp s.iters},{countKind isAli s.iters} lr={s.lats.length} ar={s.alns.length} ln={countKind isLatN s.iters},{countKind isLatL s.iters}"
+  let its := s!" it={countKind isSeg s.iters},{countKind isHyp s.iters},{countKind isAli s.iters} lr={s.lats.length} ar={s.alns.length} ln={countKind isLatN s.iters},{countKind isLatL s.iters} ub={showBuilt s.built}"
   if s.refs = 0 then "D=0" ++ its
   else
     let u := match s.utt with | .idle => "i" | .inUtt => "s" | .ended => "e"
